@@ -25,9 +25,15 @@ def pyfun(defname: str):
         a = a.model_copy(deep=True)
         a += b
         return a
+    def iadd_self(a):
+        a = a.model_copy(deep=True)
+        a += a
+        return a
     table = {
         "Stat_add": lambda a, b: a + b,
         "Stat_iadd": iadd,
+        "Stat_iadd_self": iadd_self,
+        "ActionStat_iadd_self": iadd_self,
         "Stat_stack": lambda a, n: a.stack(n),
         "Stat_sum": lambda l: Stat.sum(l),
         "Stat_all_stat": lambda v: Stat.all_stat(v),
